@@ -56,6 +56,7 @@ def main():
     args = sys.argv[1:]
     jobs = 4
     only = None
+    own_only = False
     checks = ['C%02d' % i for i in range(1, 21)]
     while args:
         arg = args.pop(0)
@@ -63,6 +64,8 @@ def main():
             jobs = int(args.pop(0))
         elif arg == '--only':
             only = args.pop(0).split(',')
+        elif arg == '--own-only':
+            own_only = True
         elif arg == '--checks':
             checks = args.pop(0).split(',')
     seeds = sorted(d for d in os.listdir(os.path.join(VERIF, 'seeded')) if os.path.isdir(os.path.join(VERIF, 'seeded', d)))
@@ -71,7 +74,12 @@ def main():
     path = os.path.join(VERIF, 'seeded', 'matrix.json')
     table = json.load(open(path)) if os.path.exists(path) else {}
     with concurrent.futures.ThreadPoolExecutor(jobs) as pool:
-        futs = [pool.submit(run, s, c) for s in seeds for c in checks if c in family(s) and c not in table.get(s, {})]
+        todo = [(s, c) for s in seeds for c in checks if c in family(s) and c not in table.get(s, {})]
+        # the check of the property a change was aimed at first (directory name Snn-Cxx-...), the cross results afterwards
+        todo.sort(key=lambda sc: (sc[0].split('-')[1] != sc[1], sc[0], sc[1]))
+        if own_only:
+            todo = [sc for sc in todo if sc[0].split('-')[1] == sc[1]]
+        futs = [pool.submit(run, s, c) for s, c in todo]
         for fut in concurrent.futures.as_completed(futs):
             seed_dir, check, verdict, buckets = fut.result()
             table.setdefault(seed_dir, {})[check] = {'verdict': verdict, 'buckets': buckets}
